@@ -24,7 +24,7 @@ behind the directive's line.  (Cuts and summaries only add paths; a site that is
 is never reported.)"""
 import re, time
 from .interp import (Interp, Ctx, Obj, Sym, View, Cell, Arr, Unsupported, NoReturn, Infeasible, NeedChoice, ElemPlace, _Ref,
-                     NORETURN, _BUILTIN_MODELS, is_opaque)
+                     NORETURN, _BUILTIN_MODELS, is_opaque, _Break, _Continue)
 from .build import AnalysisBroken
 from .lib_c18 import CutInterp
 
@@ -72,6 +72,20 @@ class DirInterp(CutInterp):
         st = self._st()
         if self.headcut and not st['cut_done'] and self.ctx.depth == 1:
             return self._cut_loop(s, cond, inc, body, env, do=False)
+        if cond is None or cond.strip_all().kind in ('IntegerLiteral', 'CXXBoolLiteralExpr'):
+            # `for (;;)` / `while (1)`: left by a break the body decides; as many generic iterations as any other loop
+            if cond is not None and not self.truth(self.eval(cond, env), cond):
+                return
+            for _ in range(self.loop_limit + 1):
+                try:
+                    self.exec(body, env)
+                except _Break:
+                    return
+                except _Continue:
+                    pass
+                if inc is not None:
+                    self.eval(inc, env)
+            raise Infeasible('loop bound')
         return Interp.exec_loop(self, s, _unused, cond, inc, body, env)
 
     def exec_do(self, s, env):
@@ -158,6 +172,15 @@ class Lines:
                 self.kind[f] = 'summ'
             else:
                 self.kind[f] = 'cut'
+        # spelling tests: functions defined elsewhere that take (token, string) and answer yes/no  (equal today)
+        self.spelling = set()
+        for n, d in u.fdecls.items():
+            if n in u.functions or n in self.diag:
+                continue
+            pt = [(p.dtype or p.type or '') for p in d.inner if p.kind == 'ParmVarDecl']
+            rt = (d.type or '').split('(', 1)[0].strip()
+            if len(pt) == 2 and _base_of(pt[0]) == 'Token' and pt[1].replace('const ', '').replace(' ', '') == 'char*' and rt in ('bool', '_Bool', 'int'):
+                self.spelling.add(n)
         self.memo = {}
         self.stack = []
         self.nsumm = 0
@@ -188,8 +211,8 @@ class Lines:
             else:
                 k = self.kind.get(n, 'cut')
                 cuts[n] = {'self': self.h_self, 'inline': self.h_inline, 'summ': self.h_summ, 'cut': self.h_cut}[k]
-        if 'equal' in cuts and 'equal' not in self.u.functions:
-            cuts['equal'] = self.h_equal
+        for n in self.spelling:
+            cuts[n] = self.h_equal
         cfg = {'inline_other_units': False, 'cut': cuts, 'loop_limit': LOOP_LIMIT, 'assume': assume}
         return DirInterp(self.P, self.u, cfg, headcut, self.posfields)
 
@@ -313,6 +336,12 @@ class Lines:
         name = call.callee()
         fd = call.enclosing('FunctionDecl')
         msg = args[1] if len(args) > 1 else None
+        if args and isinstance(args[0], View):
+            v = it.settle(args[0])
+            if isinstance(v, View):          # the diagnostic function dereferences its token: it is not NULL
+                objs = [c for c in v.cell.cands if isinstance(v.proj(c), Obj)]
+                if len(objs) == 1:
+                    it.refine(v.cell, objs)
         key = '%s:%s:diagnostic-on-the-directive/%s' % (self.u.name, fd.name if fd is not None else '?', _slug(msg))
         ctx.emit('c18ev', 'diag', key, '%s:%d' % (self.u.name, call.line), args[0] if args else None, msg if isinstance(msg, str) else name)
         if name in NORETURN:
@@ -556,7 +585,7 @@ class Lines:
             dname = None
             nx = root.fields.get('next')
             for e in ctx.events:
-                if e[0] == 'call' and e[1] == 'equal' and len(e[2]) > 1 and isinstance(e[2][1], str) and nx is not None:
+                if e[0] == 'call' and e[1] in self.spelling and len(e[2]) > 1 and isinstance(e[2][1], str) and nx is not None:
                     a = e[2][0]
                     r = it.settle(e[4]) if isinstance(e[4], View) else e[4]
                     same = (isinstance(a, View) and isinstance(nx, View) and a.cell is nx.cell) or \
